@@ -1381,6 +1381,16 @@ class Function(Ring):
         else:
             return x
 
+    # == and != compare the values like <, <=, >, >= do (a program that branches on x == 0
+    # must take the same path while it is being traced); nodes stay hashable by identity
+    def __eq__(self, other):
+        return operator.eq(self.x, self._get_val(other))
+
+    def __ne__(self, other):
+        return operator.ne(self.x, self._get_val(other))
+
+    __hash__ = object.__hash__
+
     def __lt__(self, other):
         return operator.lt(self.x, self._get_val(other))
 
